@@ -592,8 +592,18 @@ func applyRegs(regs sx) {
 				return userTimeCodec{}, nil
 			})
 			continue
+		case "usernullint":
+			avro.RegisterSchema(nullIntT, sPrim("long"))
+			avro.Register(nullIntT, func(s avro.Schema, typ reflect.Type, omit bool) (avro.Codec, error) {
+				return countingNullIntCodec{}, nil
+			})
+			continue
 		case "lib":
-			avrotime.RegisterCodecs()
+			if len(a) > 0 && a[0].atom == "null" {
+				avronull.RegisterCodecs()
+			} else {
+				avrotime.RegisterCodecs()
+			}
 			continue
 		default:
 			panic("harness: bad registration " + e.String())
@@ -700,11 +710,21 @@ func sgSchemaAndCodec(t reflect.Type) sx {
 		return T("err")
 	}
 	cres := protectSx(func() sx {
-		_, cerr := s.Codec(reflect.New(t).Interface())
-		if cerr != nil {
-			return A("builderr")
+		// the three ways of naming the struct type: a pointer to a value, a typed nil pointer, a value
+		outs := []any{reflect.New(t).Interface(), reflect.Zero(reflect.PointerTo(t)).Interface(), reflect.New(t).Elem().Interface()}
+		res := ""
+		for i, out := range outs {
+			_, cerr := s.Codec(out)
+			r := "ok"
+			if cerr != nil {
+				r = "builderr"
+			}
+			if i > 0 && r != res {
+				return A("panic") // the outcome depends on how the type was named: reported like a panic
+			}
+			res = r
 		}
-		return A("ok")
+		return A(res)
 	})
 	return T("ok", schemaSx(s), T("codec", cres))
 }
@@ -1271,6 +1291,17 @@ func genC20(c *ctx) {
 			})
 			td, env, _ := descOf(top)
 			c.emitC20(td, env, T("regs", T("usertime"), T("lib", A("time"))), c.sgValue(top, 3))
+		}
+	}
+	// the same for null.Int: a user's registration, then the null package's RegisterCodecs again
+	for _, mk := range ctxs {
+		for _, tag := range []string{`json:"x"`, `json:"x,omitempty"`} {
+			top := reflect.StructOf([]reflect.StructField{
+				{Name: "Pre", Type: reflect.TypeOf(int64(0)), Tag: `json:"pre"`},
+				{Name: "X", Type: mk(nullIntT), Tag: reflect.StructTag(tag)},
+			})
+			td, env, _ := descOf(top)
+			c.emitC20(td, env, T("regs", T("usernullint"), T("lib", A("null"))), c.sgValue(top, 3))
 		}
 	}
 	c.emit(T("c20x", A("user-time-then-null-package")))
